@@ -97,7 +97,8 @@ class LoggingOptimizer(OptimizationAbstract):
         return self.label
 
     def set_config_parameters(self, parameters):
-        self._config = LogConfig(population_size=1, max_cycles=1, fitness_error=None, **parameters)
+        # like the library's optimizers: the dictionary may (but need not) carry the base fields as well
+        self._config = LogConfig(**{"population_size": 1, "max_cycles": 1, "fitness_error": None, **parameters})
 
     def params(self):
         if self._config is None:
